@@ -234,6 +234,7 @@ def run_check(spec: CheckSpec, tier: str, seed: int, workers: int | None = None,
     reported: list[tuple[str, str]] = []
     known_hits: dict[str, int] = {}
     seen_oracles: set = set()
+    min_count: dict = {}
     n_viol = 0
     for r in viol_runs:
         d = results[r]
@@ -257,12 +258,21 @@ def run_check(spec: CheckSpec, tier: str, seed: int, workers: int | None = None,
                     n_viol += 1
                     continue
         seen_oracles.add(oid)
-        if spec.minimise_fn is not None:
+        hit = None
+        if min_count.get(oid, 0) >= 8:
+            # this oracle id was minimised often enough: a structural match of
+            # the raw history with an already-hit finding is accepted
+            raw = dict(doc)
+            raw["expected"] = dict(doc["expected"], step=v["step"])
+            hit = match_known(spec, raw, [e for e in known if e["id"] in known_hits])
+        if hit is None and spec.minimise_fn is not None:
+            min_count[oid] = min_count.get(oid, 0) + 1
             try:
                 doc = spec.minimise_fn(doc)
             except Exception as e:  # noqa: BLE001
                 print(f"NOTE: minimisation failed for run {r}: {e!r}", flush=True)
-        hit = match_known(spec, doc, known)
+        if hit is None:
+            hit = match_known(spec, doc, known)
         if hit is not None:
             known_hits[hit["id"]] = known_hits.get(hit["id"], 0) + 1
             continue
